@@ -117,6 +117,27 @@ func (dr *driver) judge(c core.Case, r core.Result, race bool) {
 			}
 			return
 		}
+		if i := strings.Index(r.Detail, hangMarker); r.Status == core.Crash && i >= 0 {
+			// the hang monitor of the batch gave its verdict and ended the child:
+			// file the verdict and run the other inputs of the batch again
+			var f flagged
+			line := r.Detail[i+len(hangMarker):]
+			if nl := strings.IndexByte(line, '\n'); nl >= 0 {
+				line = line[:nl]
+			}
+			if json.Unmarshal([]byte(line), &f) == nil && f.Index < len(cd.Inputs) {
+				d.T.Count("hang_verdicts_in_batches", 1)
+				dr.collectFlagged(c, &cd, &workOut{Flagged: []flagged{f}}, race)
+				d.T.Eval(1)
+				rest := append(append([]bytesgen.Input(nil), cd.Inputs[:f.Index]...), cd.Inputs[f.Index+1:]...)
+				if len(rest) > 0 {
+					rc := core.NewCase(c.ID+"+", caseData{Inputs: rest, Race: race})
+					rr := d.Run([]core.Case{rc}, core.RunOpts{Workers: 1, NoTally: true, Race: race, CaseWall: 60 * time.Second})[0]
+					dr.judge(rc, rr, race)
+				}
+				return
+			}
+		}
 		d.T.Count("batches_split_after_crash_or_timeout", 1)
 		var solos []core.Case
 		for i := range cd.Inputs {
